@@ -212,7 +212,14 @@ def correspondence_scalar(ctx, rng, n_obj):
         a = float(rng.choice([-4.0, -0.5, 0.25, 2.0, 3.0, 7.0, float(rng.uniform(0.2, 6))]))
         op = SCALAR_OPS[oi % 6]            # mul, rmul, imul, div, idiv, roundtrip
         P = PiecewisePolynomial(g.copy(), [(p[1], p[2], p[3].copy(), p[4], p[5], p[6]) for p in pieces])
-        R, _, _ = apply_scalar_op(P, op, a)
+        if op in ('imul', 'idiv') and (oi // 6) % 2 == 0:     # on the object as constructed, no copy in between
+            if op == 'imul':
+                P *= a
+            else:
+                P /= a
+            R = P
+        else:
+            R, _, _ = apply_scalar_op(P, op, a)
         fa = Fraction(a)
         k = fa if op in ('mul', 'rmul', 'imul') else (1 / fa if op in ('div', 'idiv') else Fraction(1))
         kq = '(%d # %d)%%Q' % (k.numerator, k.denominator)
@@ -710,11 +717,11 @@ def search(ctx, rng, budget):
             if kind == 'Polynomial':
                 args = gen_poly_args(rng)
             elif kind == 'PiecewisePolynomial':
-                args = (g, ranges)
+                args = (g, ranges[:1] if (it // 12) % 2 == 0 else ranges)      # a single piece every other time
             elif kind == 'SPolynomial':
                 args = gen_spoly_args(rng)
             else:
-                args = (R, C, sr)
+                args = (R, C, sr[:1] if (it // 12) % 2 == 0 else sr)
             run('scalar_copy', (kind, args, k),
                 lambda A, d: 'C10:scalar_copy:%s:%s' % (A[0], re.sub(r'by -?[0-9.e+-]+|piece \d+', '', d)), ('sc', kind))
         # Angular algebra at random points
